@@ -122,11 +122,18 @@ class CtlGen:
         self.lines = []
         self.ignored = []
         self.features = set()
+        self.prev_code = None       # (start, length) of the piece before the current position when it is code
 
     def num(self, n, allow_hex=True):
         if allow_hex and (self.hexaddr or self.rng.randrange(6) == 0):
             return '${:04X}'.format(n) if self.rng.randrange(2) else '${:x}'.format(n)
         return str(n)
+
+    def sp(self):
+        """Separator between the directive character and the address: CtlParser strips any white space there
+        (`line[1:].lstrip()`), so 'b30000', 'b 30000' and 'b  30000' are the same directive."""
+        k = self.rng.randrange(12)
+        return '' if k == 0 else '  ' if k == 1 else ' '
 
     def text(self):
         r = self.rng
@@ -217,7 +224,7 @@ class CtlGen:
     def entry(self, a):
         r = self.rng
         ctl = r.choice('bbccccgistuwwt')
-        lines = [f'{ctl} {self.num(a)}{self.text()}']
+        lines = [f'{ctl}{self.sp()}{self.num(a)}{self.text()}']
         if r.randrange(6) == 0:
             lines.append(f'D {self.num(a)}{self.text()}')
         if r.randrange(8) == 0:
@@ -246,11 +253,19 @@ class CtlGen:
             if pos + length > self.end:
                 length = self.end - pos
             if eff == 's' and r.randrange(3):
-                # DEFS only happens for a constant run: make one (nothing before `pos` depends on these bytes)
+                # DEFS only happens for a constant run: make one.  Nothing before `pos` depends on these bytes, except the
+                # last instruction of a code piece ending exactly here (a lone DD/FD prefix is sized by the byte after it):
+                # if the new bytes change its length the old bytes are put back.
                 mem = self.dis.snapshot
+                old = mem[pos:pos + length]
                 mem[pos:pos + length] = [r.choice((0, 0, 255, 32, r.randrange(256)))] * length
-                self.features.add('constant-run')
+                pc = self.prev_code
+                if pc and pc[0] + pc[1] == pos and self.code_len(pc[0], pc[1]) != pc[1]:
+                    mem[pos:pos + length] = old
+                else:
+                    self.features.add('constant-run')
             pieces.append({'kind': kind, 'eff': eff, 'start': pos, 'len': length})
+            self.prev_code = (pos, length) if eff == 'c' else None
             pos += length
         # then render them
         for k, p in enumerate(pieces):
@@ -299,11 +314,11 @@ class CtlGen:
             if can_open and r.randrange(3) == 0:
                 p['open'] = True
                 self.features.add('no-length')
-                line = f'{d} {self.num(s)}'
+                line = f'{d}{self.sp()}{self.num(s)}'
                 if sub is not None or pfx:
                     line += f',{pfx}' + (f',{sub}' if sub is not None else '')
             else:
-                line = f'{d} {self.num(s)},{pfx}{self.num(n, allow_hex=not pfx)}' + (f',{sub}' if sub is not None else '')
+                line = f'{d}{self.sp()}{self.num(s)},{pfx}{self.num(n, allow_hex=not pfx)}' + (f',{sub}' if sub is not None else '')
             if sub is not None:
                 self.features.add('sublengths-' + letter)
             if pfx:
@@ -333,7 +348,7 @@ class CtlGen:
         total = period * count
         if a + total > self.end or period == 0:
             return None
-        lines = [f'{ctl} {self.num(a)}{self.text()}']
+        lines = [f'{ctl}{self.sp()}{self.num(a)}{self.text()}']
         if r.randrange(2):
             lines.append(f'N {self.num(a)} loop start comment')
         for letter, off, n in period_pieces:
@@ -342,6 +357,7 @@ class CtlGen:
         lines.append(f'L {self.num(a)},{period},{count}' + (f',{flags}' if flags or r.randrange(2) else ''))
         self.features.add(f'loop-flags{flags}')
         self.lines += lines
+        self.prev_code = None
         return a + total
 
     def run(self):
@@ -439,6 +455,15 @@ def compare(full, lo, hi, ignored, res):
     return missing, wrong
 
 
+def straddle_end(warning):
+    """The sub-block end address named by an overlap warning of sna2skool (the second address, or the only one)."""
+    nums = re.findall(r'(?<![\w$])(\$[0-9A-Fa-f]+|\d+)(?![\w])', warning.split('WARNING:', 1)[-1])
+    if not nums:
+        return None
+    t = nums[-1]
+    return int(t[1:], 16) if t.startswith('$') else int(t)
+
+
 def statement_at(skool, addr, hexaddr):
     """First word of the operation of the last skool line whose address is <= addr."""
     best = None
@@ -469,6 +494,30 @@ def add_org_after_gaps(skool):
     return '\n'.join(out) + '\n'
 
 
+@contextlib.contextmanager
+def rst_config(scratch, value):
+    """Run with `RSTHandlerConfig=value` in a skoolkit.ini of the current directory (the tools' own way of choosing which RST
+    instructions take byte/word arguments; sna2skool has no option for it).  skoolkit.components caches the [skoolkit] section."""
+    if not value:
+        yield
+        return
+    import sys
+    path = os.path.join(os.getcwd(), 'skoolkit.ini')
+
+    def reset():
+        comp = sys.modules.get('skoolkit.components')
+        if comp is not None and hasattr(comp, 'SK_CONFIG'):
+            comp.SK_CONFIG = None
+    with open(path, 'w') as f:
+        f.write('[skoolkit]\nRSTHandlerConfig={}\n'.format(value))
+    reset()
+    try:
+        yield
+    finally:
+        os.remove(path)
+        reset()
+
+
 def check_case(mods, scratch, case):
     """Returns None when the round trip is lossless, else (key, description)."""
     org, data, args, ctl = case['org'], case['data'], case['args'], case['ctl']
@@ -476,7 +525,8 @@ def check_case(mods, scratch, case):
     full[org:org + len(data)] = data
     lo, hi = case['lo'], case['hi']
     try:
-        res = run_tools(mods, scratch, org, data, args, ctl)
+        with rst_config(scratch, case.get('rst_config')):
+            res = run_tools(mods, scratch, org, data, args, ctl)
     except ToolError as e:
         msg = str(e.exc)
         if e.tool == 'skool2bin' and 'Failed to assemble' in msg and re.search(r'(65536|4096 0) DEF[BW]\s*$', msg.strip(), re.I):
@@ -499,9 +549,17 @@ def check_case(mods, scratch, case):
         return None
     straddle = [w for w in res['warnings'] if 'overlaps the following' in w or 'Two instructions at' in w]
     if straddle:
-        # a statement crosses a sub-block boundary: the control file was not well-formed for this image
-        case['skipped'] = 'straddle'
-        return None
+        # A statement crosses a sub-block boundary.  The generator puts every boundary on a statement boundary except
+        # the very last one: the end of the disassembled range (-e / the terminal 'i' directive) may cut the last
+        # instruction or the last word of an odd-length DEFW block.  Only there is the control file to blame.
+        ends = {straddle_end(w) for w in straddle}
+        if ends <= {hi}:
+            case['skipped'] = 'straddle'
+            return None
+        b = min(e for e in ends if e != hi) if None not in ends else None
+        op = statement_at(res['skool'], b - 1, '-H' in args) if b else '?'
+        return (f'statement-overruns-sub-block:{op}', f'sna2skool warned "{[w for w in straddle if straddle_end(w) != hi][0][9:100]}" although the control '
+                f'file puts the sub-block boundary at {b} on a statement boundary; first differing address {min(missing + wrong)}')
     # is it only the gap after a blank ignored block?
     if case['ignored']:
         try:
@@ -521,6 +579,82 @@ def check_case(mods, scratch, case):
     if straddle:
         return f'{kind}-byte-after-straddle:{op}', f'address {a}: byte {kind} in skool2bin output (statement {op}); sna2skool warned: {straddle[0][:100]}'
     return f'{kind}-byte:{op}', f'address {a}: byte {kind} in skool2bin output, expected {full[a % 65536]} (statement {op})'
+
+
+# --------------------------------------------------------------------------------------
+# directed deterministic groups (run on every seed before the random stream)
+# --------------------------------------------------------------------------------------
+
+def sweep_image(pair):
+    """Every opcode slot of the seven decoder tables once (main, CB, ED, DD, FD, DDCB, FDCB), each followed by the same two
+    operand bytes and three NOPs.  The operand bytes are one-byte opcodes themselves, so decoding always re-synchronises."""
+    a, b = pair
+    out = []
+    for x in range(256):
+        if x not in (0xCB, 0xDD, 0xED, 0xFD):
+            out += [x, a, b, 0, 0, 0]
+    for p in (0xCB, 0xED):
+        for x in range(256):
+            out += [p, x, a, b, 0, 0, 0]
+    for p in (0xDD, 0xFD):
+        for x in range(256):
+            if x != 0xCB:
+                out += [p, x, a, b, 0, 0, 0]
+        for x in range(256):
+            out += [p, 0xCB, a, x, 0, 0, 0]
+    return out
+
+
+def directed_cases():
+    """(name, case) pairs: the opcode sweep under every base/case/Opcodes/RST setting and under every code base prefix
+    (not 'm': known finding), and every byte value under every data base prefix in DEFB/DEFM/DEFW/DEFS statements."""
+    org = 32768
+    signs, chars = (0x7F, 0x80), (0x41, 0xFF)
+    k = 0
+    for all_ops in ((), ('-I', 'Opcodes=ALL')):
+        for hx in ((), ('-H',)):
+            for lw in ((), ('-l',)):
+                # each operand pair meets each setting both on and off
+                pair = (signs, chars)[(bool(all_ops) + bool(hx) + bool(lw)) % 2]
+                data = sweep_image(pair)
+                args = list(hx + lw + all_ops)
+                yield (f'opcodes:{pair[0]:02X}{pair[1]:02X}:' + ''.join(a.lstrip('-') for a in args if a != '-I'),
+                       {'org': org, 'data': data, 'args': args, 'ctl': None, 'ignored': [], 'lo': org, 'hi': org + len(data), 'features': []})
+    for pair, args in ((signs, ['-r']), (chars, ['-r', '-H', '-l', '-I', 'Opcodes=ALL']), (signs, ['-I', 'Opcodes=ED63,ED6B,ED70,ED71,IM,NEG,RETN,XYCB', '-l'])):
+        data = sweep_image(pair)
+        yield (f'opcodes:{pair[0]:02X}{pair[1]:02X}:' + ''.join(a.lstrip('-') for a in args if a != '-I'),
+               {'org': org, 'data': data, 'args': args, 'ctl': None, 'ignored': [], 'lo': org, 'hi': org + len(data), 'features': []})
+    quotes = [(0x41, 0x5C), (0x22, 0xDC), (0xA2, 0x5C), (0x5C, 0x22), (0xDC, 0xA2), (0x20, 0x7E)]      # " \ and their +128 forms, space, ~
+    for base in ('b', 'c', 'd', 'h', 'n', 'hb', 'dc', 'cn'):
+        for args in ([], ['-H', '-l']):
+            pair = quotes.pop(0) if 'c' in base else signs if not args else chars
+            data = sweep_image(pair)
+            ctl = f'c {org}\nC {org},{base}{len(data)}\ni {org + len(data)}\n'
+            yield (f'opcodes:{pair[0]:02X}{pair[1]:02X}:base-{base}:' + ''.join(a.lstrip('-') for a in args),
+                   {'org': org, 'data': data, 'args': args, 'ctl': ctl, 'ignored': [(org + len(data), 65536)], 'lo': org, 'hi': org + len(data), 'features': []})
+    # RST arguments: every RST opcode with a byte / a word argument (RSTHandlerConfig), also cut by the 64K boundary
+    rsts = (0xC7, 0xCF, 0xD7, 0xDF, 0xE7, 0xEF, 0xF7, 0xFF)
+    for cfg, args in (('0:B,8:W,16:B,24:W,32:B,40:W,48:B,56:W', ['-r']), ('0:W,8:B,16:W,24:B,32:W,40:B,48:W,56:B', ['-r', '-H', '-l'])):
+        data = [v for pair in (signs, chars, (0xCF, 0xEF)) for r in rsts for v in (r, pair[0], pair[1], 0, 0)]
+        yield ('rst-args:' + cfg[:7] + ''.join(a.lstrip('-') for a in args),
+               {'org': org, 'data': data, 'args': args, 'ctl': None, 'ignored': [], 'lo': org, 'hi': org + len(data), 'features': [], 'rst_config': cfg})
+    for tail in ([0, 0xCF, 1, 2], [0, 0, 0xCF, 1], [0, 0, 0, 0xCF]):
+        yield ('rst-args:64K:' + str(tail.index(0xCF)),
+               {'org': 65532, 'data': tail, 'args': ['-r'], 'ctl': None, 'ignored': [], 'lo': 65532, 'hi': 65536, 'features': [], 'rst_config': '8:W'})
+    # data statements: all byte values, every base, statement sizes 1 and 8
+    bts = list(range(256))
+    words = [v for i in range(256) for v in (i, 255 - i if i % 3 else 0)]
+    runs = [v for i in range(256) for v in (i, i)]
+    data = bts + bts + bts + bts + words + runs
+    for base in ('b', 'c', 'd', 'h', 'm', 'n'):
+        for args in ([], ['-H'], ['-l'], ['-H', '-l']):
+            a = org
+            lines = [f'b {a}', f'B {a},256,{base}1', f'B {a + 256},256,{base}8', f't {a + 512}', f'T {a + 512},256,{base}1',
+                     f'T {a + 768},256,{base}8', f'w {a + 1024}', f'W {a + 1024},256,{base}2', f'W {a + 1280},256,{base}8',
+                     f's {a + 1536}', f'S {a + 1536},512,2:{base}', f'i {a + 2048}']
+            yield (f'data:base-{base}:' + ''.join(x.lstrip('-') for x in args),
+                   {'org': org, 'data': data, 'args': args, 'ctl': '\n'.join(lines) + '\n', 'ignored': [(org + 2048, 65536)], 'lo': org,
+                    'hi': org + 2048, 'features': []})
 
 
 def gen_case(rng, mods_dis, big=False):
